@@ -72,6 +72,9 @@ func buildIndex(dict *vx.Dict, dir, name, kind string, rows []vx.Row) (string, e
 
 var cacheCaps = []uint64{0, 120, 400, 1 << 20}
 
+// capSweep: byte capacities from "not even one entry" over "exactly one / two / three entries" to "most of them"
+var capSweep = []uint64{16, 24, 32, 40, 48, 56, 64, 72, 80, 96, 112, 128, 160, 200, 260, 330, 400, 520}
+
 type pairLine struct {
 	Tag    string   `json:"tag"`
 	Rows   []vx.Row `json:"rows"`
@@ -186,7 +189,9 @@ func replayCacheSeq(args []string) error {
 			return nil
 		}
 		rep.Behaviours++
-		for ci, capacity := range cacheCaps {
+		// capacity 0, two capacities from the sweep (rotating: every capacity meets every kind of sequence), ample
+		caps := []uint64{0, capSweep[rep.Behaviours%len(capSweep)], capSweep[(rep.Behaviours/len(capSweep)+rep.Behaviours*7+5)%len(capSweep)], 1 << 20}
+		for ci, capacity := range caps {
 			mode := []string{"ondemand", "preload"}[(rep.Behaviours+ci)%2]
 			idx, err := openWith(path, mode, updog.NewLRUCache(capacity))
 			if err != nil {
@@ -360,7 +365,7 @@ func (r *libRec) scenarioCache(i int) {
 	}
 	pidx.Close()
 	// the handle under test: real LRU behind a recording wrapper
-	capacity := cacheCaps[rng.Intn(len(cacheCaps))]
+	capacity := []uint64{0, uint64(40 + rng.Intn(400)), uint64(40 + rng.Intn(1500)), 1 << 20}[rng.Intn(4)] // none, a few entries, some, all
 	mode := modes[rng.Intn(2)]
 	content := func(bm *roaring.Bitmap) []uint32 {
 		if bm == nil {
